@@ -326,12 +326,15 @@ def collect(rep, pid, tier, seed):
             k = (J.key(tree), v, rt)
             if k not in keys:
                 keys[k] = len(trees_attr)
-                o_ = J.build_tree(tree)
-                if rt == "pe":
-                    trees_attr.append(J.expr_to_E(o_._synthetic_partial(v)))
-                else:      # early Differential.at evaluates EVERY stored partial: any of them may carry the finding
-                    sp = o_._synthetic_partials()
-                    trees_attr.append(J.expr_to_E(S.Add(*sp.values())) if sp else J.Const(0))
+                try:
+                    o_ = J.build_tree(tree)
+                    if rt == "pe":
+                        trees_attr.append(J.expr_to_E(o_._synthetic_partial(v)))
+                    else:      # early Differential.at evaluates EVERY stored partial: any of them may carry the finding
+                        sp = o_._synthetic_partials()
+                        trees_attr.append(J.expr_to_E(S.Add(*sp.values())) if sp else J.Const(0))
+                except Exception:
+                    trees_attr.append(J.Const(0))       # the symbolic partial cannot even be built: certainly not the named finding
         attr = eng_reduce.kf1_attribution(trees_attr)
         for clause, desc, tree, v, rt in early_pending:
             if attr[keys[(J.key(tree), v, rt)]]:
